@@ -1,0 +1,125 @@
+//go:build verif
+
+// Contracts for package geom, read by /verif's govc. This file contains only
+// comments: with the build tag off the Go tool ignores it, with the tag on it
+// declares nothing.
+package geom
+
+//@ func deflate0
+//@   requires base(c) != base(flatCoords) || base(flatCoords) == 0
+//@   ensures len(c) != stride ==> res2 != nil && res1 == nil
+//@   ensures len(c) != stride ==> istype(res2, ErrStrideMismatch) && unbox(res2, ErrStrideMismatch).Got == len(c) && unbox(res2, ErrStrideMismatch).Want == stride
+//@   ensures len(c) == stride ==> res2 == nil && len(res1) == len(flatCoords) + stride
+//@   ensures len(c) == stride ==> forall i int :: 0 <= i && i < len(flatCoords) ==> res1[i] == old(flatCoords[i])
+//@   ensures len(c) == stride ==> forall k int :: 0 <= k && k < stride ==> res1[len(flatCoords)+k] == c[k]
+//@   ensures len(c) == stride ==> (fresh(res1) || (base(res1) == base(flatCoords) && off(res1) == off(flatCoords) && cap(res1) == cap(flatCoords)))
+//@   modifies spare(flatCoords)
+
+//@ func inflate0
+//@   requires offset + stride == end
+//@   requires 0 <= offset && end <= len(flatCoords) && stride >= 0
+//@   ensures len(res) == stride && fresh(res)
+//@   ensures forall k int :: 0 <= k && k < stride ==> res[k] == flatCoords[offset+k]
+
+//@ func deflate1
+//@   requires stride >= 0
+//@   requires forall i int :: 0 <= i && i < len(coords1) ==> base(coords1[i]) != base(flatCoords) || base(flatCoords) == 0
+//@   ensures res2 != nil <==> exists i int :: 0 <= i && i < len(coords1) && len(coords1[i]) != stride
+//@   ensures res2 != nil ==> res1 == nil && istype(res2, ErrStrideMismatch) && unbox(res2, ErrStrideMismatch).Want == stride
+//@   ensures res2 == nil ==> len(res1) == len(flatCoords) + len(coords1) * stride
+//@   ensures res2 == nil ==> forall j int :: 0 <= j && j < len(flatCoords) ==> res1[j] == old(flatCoords[j])
+//@   ensures res2 == nil ==> forall i, k int :: 0 <= i && i < len(coords1) && 0 <= k && k < stride ==> res1[len(flatCoords) + i*stride + k] == coords1[i][k]
+//@   ensures res2 == nil ==> (fresh(res1) || (base(res1) == base(flatCoords) && off(res1) == off(flatCoords) && cap(res1) == cap(flatCoords)))
+//@   modifies spare(flatCoords)
+//@   loop 1:
+//@     invariant forall i int :: 0 <= i && i < idx ==> len(coords1[i]) == stride
+//@     invariant len(flatCoords) == len(flatCoords0) + idx * stride
+//@     invariant forall j int :: 0 <= j && j < len(flatCoords0) ==> flatCoords[j] == old(flatCoords0[j])
+//@     invariant forall i, k int :: 0 <= i && i < idx && 0 <= k && k < stride ==> flatCoords[len(flatCoords0) + i*stride + k] == coords1[i][k]
+//@     invariant fresh(flatCoords) || (base(flatCoords) == base(flatCoords0) && off(flatCoords) == off(flatCoords0) && cap(flatCoords) == cap(flatCoords0))
+
+//@ func deflate2
+//@   requires stride >= 0
+//@   requires forall i, j int :: 0 <= i && i < len(coords2) && 0 <= j && j < len(coords2[i]) ==> base(coords2[i][j]) != base(flatCoords) || base(flatCoords) == 0
+//@   ensures res3 != nil <==> exists i, j int :: 0 <= i && i < len(coords2) && 0 <= j && j < len(coords2[i]) && len(coords2[i][j]) != stride
+//@   ensures res3 != nil ==> res1 == nil && res2 == nil && istype(res3, ErrStrideMismatch) && unbox(res3, ErrStrideMismatch).Want == stride
+//@   ensures res3 == nil ==> len(res2) == len(ends) + len(coords2)
+//@   ensures res3 == nil ==> forall i int :: 0 <= i && i < len(ends) ==> res2[i] == old(ends[i])
+//@   ensures res3 == nil ==> forall i int :: 0 <= i && i < len(coords2) ==> res2[len(ends)+i] == (i == 0 ? len(flatCoords) : res2[len(ends)+i-1]) + len(coords2[i]) * stride
+//@   ensures res3 == nil ==> len(res1) == (len(coords2) == 0 ? len(flatCoords) : res2[len(res2)-1])
+//@   ensures res3 == nil ==> forall j int :: 0 <= j && j < len(flatCoords) ==> res1[j] == old(flatCoords[j])
+//@   ensures res3 == nil ==> forall i, j, k int :: 0 <= i && i < len(coords2) && 0 <= j && j < len(coords2[i]) && 0 <= k && k < stride ==> res1[(i == 0 ? len(flatCoords) : res2[len(ends)+i-1]) + j*stride + k] == coords2[i][j][k]
+//@   ensures res3 == nil ==> (fresh(res1) || (base(res1) == base(flatCoords) && off(res1) == off(flatCoords) && cap(res1) == cap(flatCoords)))
+//@   ensures res3 == nil ==> (fresh(res2) || (base(res2) == base(ends) && off(res2) == off(ends) && cap(res2) == cap(ends)))
+//@   modifies spare(flatCoords), spare(ends)
+//@   loop 1:
+//@     invariant forall i, j int :: 0 <= i && i < idx && 0 <= j && j < len(coords2[i]) ==> len(coords2[i][j]) == stride
+//@     invariant len(ends) == len(ends0) + idx
+//@     invariant forall i int :: 0 <= i && i < len(ends0) ==> ends[i] == old(ends0[i])
+//@     invariant forall i int :: 0 <= i && i < idx ==> ends[len(ends0)+i] == (i == 0 ? len(flatCoords0) : ends[len(ends0)+i-1]) + len(coords2[i]) * stride
+//@     invariant forall i int :: 0 <= i && i < idx ==> len(flatCoords0) <= ends[len(ends0)+i] && ends[len(ends0)+i] <= len(flatCoords)
+//@     invariant len(flatCoords) == (idx == 0 ? len(flatCoords0) : ends[len(ends)-1])
+//@     invariant forall j int :: 0 <= j && j < len(flatCoords0) ==> flatCoords[j] == old(flatCoords0[j])
+//@     invariant forall i, j, k int :: 0 <= i && i < idx && 0 <= j && j < len(coords2[i]) && 0 <= k && k < stride ==> 0 <= j*stride + k && (i == 0 ? len(flatCoords0) : ends[len(ends0)+i-1]) + j*stride + k < ends[len(ends0)+i] && flatCoords[(i == 0 ? len(flatCoords0) : ends[len(ends0)+i-1]) + j*stride + k] == coords2[i][j][k]
+//@     invariant fresh(flatCoords) || (base(flatCoords) == base(flatCoords0) && off(flatCoords) == off(flatCoords0) && cap(flatCoords) == cap(flatCoords0))
+//@     invariant fresh(ends) || (base(ends) == base(ends0) && off(ends) == off(ends0) && cap(ends) == cap(ends0))
+
+//@ func inflate1
+//@   requires stride > 0 && 0 <= offset && offset <= end && end <= len(flatCoords)
+//@   ensures fresh(res) && len(res) * stride <= end - offset && end - offset < len(res) * stride + stride
+//@   ensures forall i int :: 0 <= i && i < len(res) ==> len(res[i]) == stride && fresh(res[i])
+//@   ensures forall i, k int :: 0 <= i && i < len(res) && 0 <= k && k < stride ==> 0 <= i*stride + k && offset + i*stride + k < end && res[i][k] == flatCoords[offset + i*stride + k]
+//@   loop 1:
+//@     invariant offset == offset0 + idx*stride
+//@     invariant len(coords1) * stride <= end - offset0 && end - offset0 < len(coords1) * stride + stride && fresh(coords1)
+//@     invariant forall i int :: 0 <= i && i < idx ==> len(coords1[i]) == stride && fresh(coords1[i])
+//@     invariant forall i, k int :: 0 <= i && i < idx && 0 <= k && k < stride ==> 0 <= i*stride + k && offset0 + i*stride + k < end && coords1[i][k] == flatCoords[offset0 + i*stride + k]
+
+//@ func inflate2
+//@   requires stride > 0 && 0 <= offset
+//@   requires forall i int :: 0 <= i && i < len(ends) ==> 0 <= ends[i] && (i == 0 ? offset : ends[i-1]) <= ends[i] && ends[i] <= len(flatCoords)
+//@   ensures fresh(res) && len(res) == len(ends)
+//@   ensures forall i int :: 0 <= i && i < len(res) ==> fresh(res[i]) && len(res[i]) * stride <= ends[i] - (i == 0 ? offset : ends[i-1]) && ends[i] - (i == 0 ? offset : ends[i-1]) < len(res[i]) * stride + stride
+//@   ensures forall i, j int :: 0 <= i && i < len(res) && 0 <= j && j < len(res[i]) ==> len(res[i][j]) == stride && fresh(res[i][j])
+//@   ensures forall i, j, k int :: 0 <= i && i < len(res) && 0 <= j && j < len(res[i]) && 0 <= k && k < stride ==> res[i][j][k] == flatCoords[(i == 0 ? offset : ends[i-1]) + j*stride + k]
+//@   loop 1:
+//@     invariant fresh(coords2) && len(coords2) == len(ends)
+//@     invariant offset == (idx == 0 ? offset0 : ends[idx-1])
+//@     invariant forall i int :: 0 <= i && i < idx ==> fresh(coords2[i]) && len(coords2[i]) * stride <= ends[i] - (i == 0 ? offset0 : ends[i-1]) && ends[i] - (i == 0 ? offset0 : ends[i-1]) < len(coords2[i]) * stride + stride
+//@     invariant forall i, j int :: 0 <= i && i < idx && 0 <= j && j < len(coords2[i]) ==> len(coords2[i][j]) == stride && fresh(coords2[i][j])
+//@     invariant forall i, j, k int :: 0 <= i && i < idx && 0 <= j && j < len(coords2[i]) && 0 <= k && k < stride ==> coords2[i][j][k] == flatCoords[(i == 0 ? offset0 : ends[i-1]) + j*stride + k]
+
+// ---------------------------------------------------------------------------
+// Point
+
+//@ func NewPointFlat
+//@   requires strideOf(l) >= 0 && (len(flatCoords) == 0 || len(flatCoords) == strideOf(l))
+//@   ensures fresh(res) && wf0(res) && res.layout == l && res.flatCoords == flatCoords && res.srid == 0
+
+//@ func NewPoint
+//@   requires strideOf(l) >= 0
+//@   ensures fresh(res) && wf0(res) && res.layout == l && len(res.flatCoords) == strideOf(l) && fresh(res.flatCoords)
+
+//@ func NewPointEmpty
+//@   requires strideOf(l) >= 0
+//@   ensures fresh(res) && wf0(res) && res.layout == l && len(res.flatCoords) == 0
+
+//@ func geom0.setCoords
+//@   requires g.stride >= 0
+//@   ensures res == nil <==> len(coords0) == g.stride
+//@   ensures res != nil ==> istype(res, ErrStrideMismatch) && unbox(res, ErrStrideMismatch).Got == len(coords0) && unbox(res, ErrStrideMismatch).Want == g.stride
+//@   ensures res == nil ==> len(g.flatCoords) == g.stride && (fresh(g.flatCoords) || g.flatCoords == nil) && forall k int :: 0 <= k && k < g.stride ==> g.flatCoords[k] == coords0[k]
+//@   ensures g.layout == old(g.layout) && g.stride == old(g.stride) && g.srid == old(g.srid)
+//@   modifies *g
+
+//@ func Point.SetCoords
+//@   requires strideOK(g.layout, g.stride)
+//@   ensures res2 == nil <==> len(coords) == g.stride
+//@   ensures res2 != nil ==> res1 == nil && istype(res2, ErrStrideMismatch) && unbox(res2, ErrStrideMismatch).Got == len(coords) && unbox(res2, ErrStrideMismatch).Want == g.stride
+//@   ensures res2 == nil ==> res1 == g && wf0(g) && len(g.flatCoords) == g.stride && forall k int :: 0 <= k && k < g.stride ==> g.flatCoords[k] == coords[k]
+//@   ensures g.layout == old(g.layout) && g.stride == old(g.stride) && g.srid == old(g.srid)
+//@   modifies *g
+
+//@ func geom0.Coords
+//@   requires wf0(g) && len(g.flatCoords) == g.stride
+//@   ensures fresh(res) && len(res) == g.stride && forall k int :: 0 <= k && k < g.stride ==> res[k] == g.flatCoords[k]
